@@ -881,6 +881,18 @@ func ruleTerminalPropagation() check.Rule {
 									if outside(v) && (listed || !listedOnly) {
 										found = true
 									}
+									// a local closure that wraps the test of the state (claim(j), isReady()): what its body reads
+									if outside(v) && depth < 3 {
+										if _, isSig := v.Type().Underlying().(*types.Signature); isSig {
+											for _, d := range m.Defs[v] {
+												if d.Expr != nil {
+													if l, ok := ast.Unparen(d.Expr).(*ast.FuncLit); ok && mentionsState(l.Body, depth+1, listedOnly) {
+														found = true
+													}
+												}
+											}
+										}
+									}
 									// a local computed from the state (drained := len(*values) == 0)
 									if !outside(v) && depth < 3 {
 										for _, d := range m.Defs[v] {
